@@ -37,6 +37,8 @@ PLAN = {
         item("h_stream", "c08_ans", 6_400_000, 48_000_000, max_len=(1024, 8192)),
         item("h_stream", "c08_range", 6_400_000, 48_000_000, max_len=(1024, 8192)),
         item("h_symbol", "c16_bits", 3_200_000, 24_000_000, param=8, max_len=(1024, 8192)),
+        # temporary views on bounded sinks (forward / reversed cursors that are nearly full; the view may be refused)
+        item("h_model", "c09_impossible", 3_200_000, 24_000_000, param=8, max_len=(2048, 16384)),
     ],
     "C11": [item("h_stream", "c11_suffix", 6_400_000, 64_000_000, max_len=(2048, 2048))],
     "C12": [
@@ -127,7 +129,7 @@ RULES = {
            "points and to an untouched twin B; ANS inspections: get_compressed (once/twice), get_binary (Ok and Err), iter_compressed, "
            "as_decoder, as_seekable_decoder, clone, pos/state, sizes, starting from new/from_compressed/from_binary; range-encoder "
            "inspections: get_compressed (once/twice), decoder() decoding 3 or all symbols, clone, pos/state, sizes; bit-level stack/queue "
-           "coders: see C16 interpreter; " + GRID + "; non-trivial = an inspection in a delicate state (range encoder inverted or with "
+           "coders: see C16 interpreter; " + GRID + "; ANS coders over bounded cursors (forward / reversed, nearly full, State of 2 and 4 words): get_compressed() views that are obtained or refused for lack of space must leave the pending symbols decodable (histories of C09, judged for views only); non-trivial = an inspection in a delicate state (range encoder inverted or with "
            ">=2 seal words, ANS directly after a flush or with non-empty bulk, empty coder)",
     "C11": "case = up to 48 short messages per case (0..6 random symbols + a final symbol that is steered, with probability 3/4, "
            "from the encoder's public state() so that range lands just above 2^(S-W) and lower just above a word boundary), each "
